@@ -282,7 +282,7 @@ pub fn run(ctx: &mut Ctx) {
     }
     let tier = ctx.tier;
     let seed = ctx.seed;
-    let n = if ctx.slow_tool { 160 } else { tier.pick(80_000u64, 5_000_000u64) };
+    let n = if ctx.slow_tool { 48 } else { tier.pick(80_000u64, 5_000_000u64) };
     for idx in 0..n {
         if !ctx.take("hostile", idx) {
             continue;
@@ -339,7 +339,7 @@ pub fn run(ctx: &mut Ctx) {
         let (_, enc) = corpus_msg(seed, ci);
         observe_all(ctx, "corpus", ci, &enc.bytes);
     }
-    let nh = if ctx.slow_tool { 64 } else { tier.pick(300_000u64, 20_000_000u64) };
+    let nh = if ctx.slow_tool { 16 } else { tier.pick(300_000u64, 20_000_000u64) };
     for idx in 0..nh {
         if !ctx.take("havoc", idx) {
             continue;
